@@ -70,6 +70,10 @@ pub enum SK {
     Do(bool, bool, E, Vec<S>), // top, until
     For(String, E, E, Option<E>, Vec<S>),
     Select(E, Vec<(Vec<CaseE>, Vec<S>)>, Option<Vec<S>>),
+    /// DATA item, item ... (literals, possibly negated)
+    Data(Vec<E>),
+    /// READ target, target ... (variables; the positions are filled in by the printer)
+    Read(Vec<(String, (u32, u32))>),
 }
 
 #[derive(Clone, Debug)]
@@ -251,6 +255,30 @@ impl Printer {
                 }
                 self.nl();
             }
+            SK::Data(items) => {
+                self.put("DATA ");
+                let n = items.len();
+                for (i, x) in items.iter_mut().enumerate() {
+                    self.expr(x);
+                    if i + 1 < n {
+                        self.put(", ");
+                    }
+                }
+                self.nl();
+            }
+            SK::Read(targets) => {
+                self.put("READ ");
+                let n = targets.len();
+                for (i, (nm, pos)) in targets.iter_mut().enumerate() {
+                    *pos = self.here();
+                    let nm = nm.clone();
+                    self.put(&nm);
+                    if i + 1 < n {
+                        self.put(", ");
+                    }
+                }
+                self.nl();
+            }
             SK::If(c, thn, elifs, els) => {
                 self.put("IF ");
                 self.expr(c);
@@ -366,6 +394,84 @@ pub fn print_program(p: &mut Vec<S>) -> String {
     pr.text
 }
 
+
+
+// ------------------------------------------------------------------ DATA / READ
+
+fn data_item(rng: &mut Rng) -> E {
+    match rng.below(9) {
+        0 => e(EK::Lit(Lit::Int(3))),
+        1 => e(EK::Un(0, Box::new(e(EK::Lit(Lit::Int(2)))))),
+        2 => e(EK::Lit(Lit::Long(100000))),
+        3 => e(EK::Lit(Lit::Single(1.5))),
+        4 => e(EK::Lit(Lit::Double(0.25))),
+        5 => e(EK::Lit(Lit::Str("ab".into()))),
+        6 => e(EK::Lit(Lit::Str("".into()))),
+        7 => e(EK::Lit(Lit::Int(32767))),
+        _ => e(EK::Lit(Lit::Int(rng.range(0, 50) as i32))),
+    }
+}
+
+fn insert_reads(block: &mut Vec<S>, rng: &mut Rng, left: &mut usize) {
+    for st in block.iter_mut() {
+        if *left == 0 {
+            return;
+        }
+        match &mut st.k {
+            SK::If(_, thn, _, els) => {
+                if rng.chance(1, 3) {
+                    insert_reads(thn, rng, left);
+                }
+                if let Some(b) = els {
+                    if rng.chance(1, 3) {
+                        insert_reads(b, rng, left);
+                    }
+                }
+            }
+            SK::While(_, b) | SK::Do(_, _, _, b) | SK::For(_, _, _, _, b) => {
+                if rng.chance(1, 2) {
+                    insert_reads(b, rng, left);
+                }
+            }
+            SK::Select(_, cases, _) => {
+                for (_, b) in cases.iter_mut() {
+                    if rng.chance(1, 3) {
+                        insert_reads(b, rng, left);
+                    }
+                }
+            }
+            _ => {}
+        }
+    }
+    if *left > 0 && rng.chance(2, 3) {
+        *left -= 1;
+        let n = rng.range(1, 3) as usize;
+        let vars = ["A%", "B%", "C&", "D!", "E#", "S$", "T$", "A%", "D!"];
+        let targets: Vec<(String, (u32, u32))> = (0..n).map(|_| (rng.pick(&vars).to_string(), (0, 0))).collect();
+        let i = rng.below(block.len() as u64 + 1) as usize;
+        block.insert(i, s(SK::Read(targets)));
+    }
+}
+
+/// adds DATA statements at random top-level places (they are executed first wherever they stand) and
+/// READ statements anywhere, also inside loops and branches; the item kinds and counts are such that
+/// conversions, Type mismatch, Overflow and Out of DATA all occur
+pub fn add_data_read(prog: &mut Vec<S>, rng: &mut Rng) {
+    let n_data = rng.range(1, 3) as usize;
+    for _ in 0..n_data {
+        let k = rng.range(1, 4) as usize;
+        // mostly numbers, so that most READs succeed
+        let items: Vec<E> = (0..k).map(|_| if rng.chance(2, 3) { e(EK::Lit(Lit::Int(rng.range(0, 9) as i32))) } else { data_item(rng) }).collect();
+        let i = rng.below(prog.len() as u64 + 1) as usize;
+        prog.insert(i, s(SK::Data(items)));
+    }
+    let mut left = rng.range(1, 3) as usize;
+    insert_reads(prog, rng, &mut left);
+    if left > 0 {
+        let i = rng.below(prog.len() as u64 + 1) as usize;
+        prog.insert(i, s(SK::Read(vec![("A%".to_string(), (0, 0))])));
+    }
+}
 
 // ------------------------------------------------------------------ the nesting matrix
 
@@ -544,6 +650,8 @@ pub fn coq_stmt(st: &S) -> String {
     let p = pos_c(st.pos);
     match &st.k {
         SK::Assign(n, x) => format!("(SAssign {} {} {})", p, coq_name(n), coq_expr(x)),
+        SK::Data(items) => format!("(SData {} [{}])", p, items.iter().map(coq_expr).collect::<Vec<_>>().join("; ")),
+        SK::Read(targets) => format!("(SRead {} [{}])", p, targets.iter().map(|(n, q)| format!("({}, {})", coq_name(n), pos_c(*q))).collect::<Vec<_>>().join("; ")),
         SK::Print(args) => format!(
             "(SPrint {} [{}])",
             p,
@@ -739,6 +847,15 @@ pub fn coq_instr(i: &Instruction) -> String {
         Instruction::PrintSemicolon => "IPrintSemi".into(),
         Instruction::PrintValueFromA => "IPrintValue".into(),
         Instruction::PrintEnd => "IPrintEnd".into(),
+        Instruction::BeginCollectArguments => "IBeginCollect".into(),
+        Instruction::PushUnnamedByVal => "IPushUnnamedByVal".into(),
+        Instruction::PushUnnamedByRef => "IPushUnnamedByRef".into(),
+        Instruction::PushStack => "IPushStack".into(),
+        Instruction::PopStack => "IPopStack".into(),
+        Instruction::BuiltInSub(rusty_parser::BuiltInSub::Data) => "IBuiltinData".into(),
+        Instruction::BuiltInSub(rusty_parser::BuiltInSub::Read) => "IBuiltinRead".into(),
+        Instruction::EnqueueToReturnStack(i) => format!("(IEnqueue {})", i),
+        Instruction::DequeueFromReturnStack => "IDequeue".into(),
         _ => "IOther".into(),
     }
 }
@@ -754,6 +871,21 @@ pub fn coq_dims(igr: &InstructionGeneratorResult) -> String {
     let mut v = vec![];
     let ins = &igr.instructions;
     let mut i = 0;
+    // the DATA statements of the main program come first: skip their calls
+    while i < ins.len() && matches!(ins[i].element, Instruction::BeginCollectArguments) {
+        let mut j = i;
+        let mut is_data = false;
+        while j < ins.len() && !matches!(ins[j].element, Instruction::PopStack) {
+            if matches!(ins[j].element, Instruction::BuiltInSub(rusty_parser::BuiltInSub::Data)) {
+                is_data = true;
+            }
+            j += 1;
+        }
+        if !is_data || j >= ins.len() {
+            break;
+        }
+        i = j + 1;
+    }
     while i + 2 < ins.len() {
         match (&ins[i].element, &ins[i + 1].element, &ins[i + 2].element) {
             (Instruction::AllocateBuiltIn(_), Instruction::VarPathName(rp), Instruction::CopyAToVarPath) => {
@@ -1170,7 +1302,12 @@ pub fn run(args: &Args) {
         } else {
             let mut g = Gen { rng: &mut rng, loop_counter: 0 };
             let depth = if args.thorough() { 2 + (k % 2) as u32 } else { 2 };
-            g.program(depth, if args.thorough() { 5 } else { 4 })
+            let mut p = g.program(depth, if args.thorough() { 5 } else { 4 });
+            if k % 3 == 0 {
+                add_data_read(&mut p, &mut rng);
+                sum.count("programs_with_data_read");
+            }
+            p
         };
         let src = print_program(&mut prog);
         evaluations += 1;
@@ -1252,6 +1389,6 @@ pub fn run(args: &Args) {
     sum.write(
         &args.out,
         evaluations,
-        "programs generated from the core grammar by a typed generator (expressions of depth <= 2 over the 13 binary and 2 unary operators, five value types, boundary literals; assignment, PRINT with separators, IF/ELSEIF/ELSE, WHILE, the four DO forms, FOR with positive, negative, absent and run-time computed STEP, SELECT CASE with simple/IS/range/multiple tests; nesting depth 2 (quick) / 3 (thorough)); plus the nesting matrix: every (outer, middle, inner) triple over five loop kinds with different bounds and steps and five branch positions (THEN, ELSEIF, ELSE, a later CASE, CASE ELSE), the innermost block printing all enclosing counters - all 1000 triples (thorough) / the loop-branch-loop triples and a seeded sample (quick); run-time errors arise from the boundary literals (overflow, division by zero, zero step). For each program: literal comparison of the real instruction list and statement addresses with the Coq generator model; outcome (code, row, col), output bytes and final variables against the Coq VM model and against the big-step reference semantics. Cases whose output contains a number outside the exactly printable domain skip the byte comparison. Non-trivial = at least one control construct; distinct by instruction list.",
+        "programs generated from the core grammar by a typed generator (expressions of depth <= 2 over the 13 binary and 2 unary operators, five value types, boundary literals; assignment, PRINT with separators, IF/ELSEIF/ELSE, WHILE, the four DO forms, FOR with positive, negative, absent and run-time computed STEP, SELECT CASE with simple/IS/range/multiple tests; in every third program DATA statements at random top-level places and READ statements anywhere (also in loops and branches) with items of all five types, so that conversions, Type mismatch, Overflow and Out of DATA occur; nesting depth 2 (quick) / 3 (thorough)); plus the nesting matrix: every (outer, middle, inner) triple over five loop kinds with different bounds and steps and five branch positions (THEN, ELSEIF, ELSE, a later CASE, CASE ELSE), the innermost block printing all enclosing counters - all 1000 triples (thorough) / the loop-branch-loop triples and a seeded sample (quick); run-time errors arise from the boundary literals (overflow, division by zero, zero step). For each program: literal comparison of the real instruction list and statement addresses with the Coq generator model; outcome (code, row, col), output bytes and final variables against the Coq VM model and against the big-step reference semantics. Cases whose output contains a number outside the exactly printable domain skip the byte comparison. Non-trivial = at least one control construct; distinct by instruction list.",
     );
 }
